@@ -171,6 +171,9 @@ while True:
     if c.startswith("noise "):
         sys.stdout.write(c[6:])                   # other output of the script, no line end
         sys.stdout.flush()
+    if c.startswith("rest "):
+        sys.stdout.write(c[5:] + "\n")            # second part of a line that was flushed in two pieces
+        sys.stdout.flush()
     with open(ack + ".tmp", "w") as f:
         f.write(str(pos))
     os.replace(ack + ".tmp", ack)
@@ -241,7 +244,19 @@ def _real_local_class():
                 rec = {"run": e["run"], "idx": e["nrep"], ST_WORKER_TIMESTAMP: self.clock}
                 if self.clock % 3 == 1:
                     self._send(t, "noise " + ["epoch 3: 50%", "loss {", "}\r"][self.clock % 9 // 3])
-                self._send(t, "emit " + json.dumps(rec))
+                if self.clock % 4 == 2 and not self._in_poll:
+                    # the report line reaches the log in two flushes, and the log is read in between (a poll of the backend at an
+                    # unlucky moment; what it returns is not used): a half-written line is not a report yet, the whole line is one
+                    line = "[tune-metric]: " + json.dumps(rec)
+                    cut = len(line) // 2
+                    self._send(t, "noise " + line[:cut])
+                    try:
+                        LocalBackend._all_trial_results(self, [t])
+                    except Exception:  # noqa
+                        pass
+                    self._send(t, "rest " + line[cut:])
+                else:
+                    self._send(t, "emit " + json.dumps(rec))
                 e["out"].append(rec)
                 self.emitted.append((t, e["run"], e["nrep"]))
                 e["nrep"] += 1
